@@ -168,6 +168,16 @@ prop("C19", "exploration", "reference device completing posted buffers in arbitr
      "Non-trivial iff at least one delivered event was compared; distinct by hash of (configuration, completion choices, case).",
      [stage("checked")], [stage("checked"), stage("asan", scale=150, optional=True), stage("miri", optional=True, timeout=7200)])
 
+prop("C20", "exploration", "five reference devices decoding every request chain against the specification's structure layouts; GPU resource table + DMA-ledger audit of attached backing; PCM stream reassembly",
+     "GPU, sound, entropy, clock and 9P drivers run against reference devices that decode each chain (little-endian field positions per VirtIO 1.2/1.3 structure layouts), check command order (create -> attach -> set_scanout; transfer -> flush; set_params before xfer), and answer with the expected success type or with error codes, wrong success types and garbage - any of which must turn into an Err. "
+     "The reference GPU keeps a resource table and audits at every command, before drop and in the drop event log that every attached backing range is live DMA memory of at least the advertised length; the reference sound device reassembles position-coded PCM frames per stream (exactly once, in order, chunk <= period, right stream tag, outstanding <= capacity) under a deliberately lagging completion schedule; "
+     "returned values (resolution, EDID preferred/standard timings against an independent decoder, entropy length and bytes, clock readings/capabilities/status mapping, stream capabilities, mount tag, 9P size-vs-used check) are compared with what the device reported.",
+     DRV_NOTE + " After an injected GPU error response the case ends (driver and device state may legitimately differ). Resolutions with w*h*4 >= 2^32 and zero-sized resources are not generated; PCM completions are per-stream FIFO for the blocking API.",
+     "a case is one driver instance of one of the five devices (transport model / model-no-unset / MMIO modern / MMIO legacy / PCI; INDIRECT_DESC x EVENT_IDX; device notification policy) driven through 40..60 operations with random parameters: entropy lengths 1..64 KiB with short deliveries; all three clock messages x statuses {0,1,2,3,4,5,6,0xff} x clock types/smearing/flags; "
+     "9P requests with size field ==/!= used length and invalid buffer sizes; GPU resolution/framebuffer setup/change_resolution/flush/cursor setup+move with 1-in-8 unexpected responses, plus EDID cases of 400 random/structured 1024-byte blobs with size fields {0,127,128,129,256,1024,2^32-1}; sound set_params (valid/invalid), stream commands, jack remap, capability getters, blocking pcm_xfer of 1..40 periods (+ partial tail) and non-blocking batches. "
+     "Non-trivial iff at least one request/response pair was checked; distinct by hash of (device, configuration, operation list, case).",
+     [stage("checked")], [stage("checked"), stage("asan", scale=100, optional=True)])
+
 NOT_YET = {}
 import re
 props = [json.loads(l) for l in open(os.path.join(ROOT, "properties.jsonl"))]
